@@ -2,7 +2,7 @@
 # usage: sweep.sh <tier> <seed> [ids...]   — runs checks one after another, prints one line each
 tier=${1:-quick}; seed=${2:-1}; shift 2
 ids="$@"; [ -z "$ids" ] && ids="C01 C02 C03 C04 C05 C06 C07 C08 C09 C10 C11 C12 C13 C14 C15 C16 C17 C18 C19 C20"
-cd /verif
+cd "$(dirname "$0")"; mkdir -p .work
 for p in $ids; do
   t0=$(date +%s)
   VERIF_SEED=$seed ./check $p --tier $tier > .work/sweep-$p-$tier-$seed.out 2>&1; rc=$?
